@@ -89,6 +89,7 @@ type c10Scn struct {
 	Reqs   []c10Req `json:"reqs"`
 	// observations
 	Obs       []B      `json:"obs"`        // every reply the server wrote, in arrival order over all connections
+	ObsConn   []int    `json:"obs_conn"`   // per reply: the connection (socket) it arrived on; request i was sent on connection i mod conns
 	PingCalls int      `json:"ping_calls"` // calls of the servant's own tars_ping during this scenario
 	Tries     int      `json:"tries"`
 	Retried   []string `json:"retried,omitempty"` // monitor failures of earlier tries that did not reproduce
@@ -382,7 +383,11 @@ func c10Monitor(s *c10Scn) []c10Fail {
 		ids[s.Reqs[i].ID] = true
 	}
 	timingScn := s.Cfg.HT > 0 || s.Kind == "queue" || s.UDP
-	for _, ob := range s.Obs {
+	onConn := map[int32]int{}
+	for i := range s.Reqs {
+		onConn[s.Reqs[i].ID] = i % s.Conns
+	}
+	for oi, ob := range s.Obs {
 		r := c10DecodeReply(ob)
 		if r.Garbage != "" {
 			out = append(out, c10Fail{"reply/undecodable", fmt.Sprintf("%s: the server wrote %d bytes that are not a reply packet (%s)", where, len(ob), r.Garbage), false})
@@ -391,6 +396,9 @@ func c10Monitor(s *c10Scn) []c10Fail {
 		if !ids[r.ID] {
 			out = append(out, c10Fail{"identity/id", fmt.Sprintf("%s: a reply carries request id %d, which no request of this connection has", where, r.ID), timingScn})
 			continue
+		}
+		if oi < len(s.ObsConn) && s.ObsConn[oi] != onConn[r.ID] {
+			out = append(out, c10Fail{"identity/connection", fmt.Sprintf("%s: the reply to request id %d (sent on connection %d of the scenario) arrived on connection %d", where, r.ID, onConn[r.ID], s.ObsConn[oi]), timingScn})
 		}
 		byID[r.ID] = append(byID[r.ID], r)
 	}
@@ -696,7 +704,7 @@ func c10Configs(tier string) []c10Cfg {
 
 func c10Gen(tier string, rng *rand.Rand) []c10Scn {
 	var out []c10Scn
-	nt, nu, nq := 9, 4, 2
+	nt, nu, nq := 12, 6, 4
 	if tier == "thorough" {
 		nt, nu, nq = 40, 16, 6
 	}
@@ -817,7 +825,43 @@ func c10Trunc(s string, n int) string {
 	return s
 }
 
+var c10Stats = struct {
+	mu                                sync.Mutex
+	clause, cfg, tries                map[string]int
+	reqs, replies, scenarios, skipped int
+	retried                           []string
+}{clause: map[string]int{}, cfg: map[string]int{}, tries: map[string]int{}}
+
 func c10Class(s *c10Scn) string {
+	c10Stats.mu.Lock()
+	c10Stats.scenarios++
+	if s.Err != "" {
+		c10Stats.skipped++
+	}
+	c10Stats.tries[fmt.Sprintf("%d", s.Tries)]++
+	c10Stats.retried = append(c10Stats.retried, s.Retried...)
+	c10Stats.reqs += len(s.Reqs)
+	c10Stats.replies += len(s.Obs)
+	tr := "tcp"
+	if s.UDP {
+		tr = "udp"
+	}
+	c10Stats.cfg[fmt.Sprintf("%s pool=%d ht=%d %s", tr, s.Cfg.Pool, s.Cfg.HT, s.Kind)] += len(s.Reqs)
+	for i := range s.Reqs {
+		q := &s.Reqs[i]
+		v := fmt.Sprintf("v%d", q.Ver)
+		if !c10IsKnownVer(q.Ver) {
+			v = "v-other"
+		}
+		way := "two-way"
+		if q.PType == basef.TARSONEWAY {
+			way = "one-way"
+		} else if q.PType != basef.TARSNORMAL {
+			way = "two-way(other type)"
+		}
+		c10Stats.clause[fmt.Sprintf("%s %s %s %s", c10Clause(s.Cfg, q), v, way, tr)]++
+	}
+	c10Stats.mu.Unlock()
 	// distinct (configuration, transport, clause, version, one-way?) combinations exercised
 	var ks []string
 	seen := map[string]bool{}
@@ -847,6 +891,15 @@ func c10Main(a Args) {
 		Coq:      c10Coq,
 		Class:    c10Class,
 		Extra: func(tier string, rng *rand.Rand, res *Result) {
+			res.Stats["requests"] = c10Stats.reqs
+			res.Stats["replies_observed"] = c10Stats.replies
+			res.Stats["scenarios"] = c10Stats.scenarios
+			res.Stats["scenarios_not_run_socket_error"] = c10Stats.skipped
+			res.Stats["requests_per_configuration"] = c10Stats.cfg
+			res.Stats["requests_per_clause_version_way_transport"] = c10Stats.clause
+			res.Stats["tries_per_scenario"] = c10Stats.tries
+			res.Stats["timing_failures_not_reproduced"] = c10Stats.retried
+			res.Traces = c10Stats.scenarios - c10Stats.skipped
 		},
 	}
 	if a.Replay != "" {
